@@ -295,3 +295,65 @@ FACETS = [
     Facet('torch/reduce', f_reduce, strategy=lambda t: st_reduce('torch', 3), examples={'quick': 300, 'thorough': 10000}, backend='torch'),
     Facet('torch/trace', f_trace, strategy=lambda t: st_trace('torch', 3, ['pauli', 'list', 'poly']), examples={'quick': 300, 'thorough': 10000}, backend='torch'),
 ]
+
+
+def _big_poly(N, n, seed):
+    """deterministic pseudo-random polynomial (a pure function of the case): n terms, repeated strings likely, all phases."""
+    rs = np.random.RandomState(seed)
+    L = rs.randint(0, 4, size=(n, N)).astype(np.int64)
+    K = rs.randint(0, 4, size=n).astype(np.int64)
+    cs = (rs.randint(-16, 17, size=n) + 1j * rs.randint(-16, 17, size=n)) / 8.0
+    return L, K, cs
+
+
+def _as_dict(L, K, cs):
+    d = {}
+    for l, k, c in zip(L.tolist(), K.tolist(), cs):
+        d[tuple(l)] = d.get(tuple(l), 0) + complex(c) * 1j ** int(k)
+    return d
+
+
+def f_large(case):
+    """polynomials with hundreds of terms (beyond one byte of indices): reduce, sum and product against a dictionary model."""
+    be, N = case['be'], case['N']
+    Bk = B.backend(be)
+    L1, K1, c1 = _big_poly(N, case['n1'], case['seed'])
+    L2, K2, c2 = _big_poly(N, case['n2'], case['seed'] + 1)
+    P, Q = Bk.poly(L1, K1, c1), Bk.poly(L2, K2, c2)
+    tol = 1e-9 if be == 'np' else 2e-3
+
+    def compare(obj, want, what):
+        l, k = Bk.read_list(obj)
+        got = _as_dict(l, k, Bk.num(obj.cs))
+        keys = set(got) | set(want)
+        bad = [x for x in keys if abs(got.get(x, 0) - want.get(x, 0)) > tol]
+        check(not bad, '%s (%d and %d terms): %d strings have a wrong coefficient, e.g. %s: %r expected %r' % (
+            what, len(K1), len(K2), len(bad), ''.join(ref.LET[a] for a in bad[0]) if bad else '', got.get(bad[0], 0) if bad else 0, want.get(bad[0], 0) if bad else 0), 'large-' + what.split()[0])
+        return got
+    d1, d2 = _as_dict(L1, K1, c1), _as_dict(L2, K2, c2)
+    r = P.reduce()
+    compare(r, d1, 'reduce')
+    rl, _ = Bk.read_list(r)
+    check(len({tuple(x) for x in rl.tolist()}) == rl.shape[0], 'reduce left repeated strings among %d terms' % rl.shape[0], 'large-reduce')
+    compare(P + Q, {x: d1.get(x, 0) + d2.get(x, 0) for x in set(d1) | set(d2)}, 'sum')
+    # product of the first m terms of each (m*m up to 400 terms)
+    m = case['m']
+    Pm, Qm = Bk.poly(L1[:m], K1[:m], c1[:m]), Bk.poly(L2[:m], K2[:m], c2[:m])
+    want = {}
+    for a in range(min(m, len(K1))):
+        for b in range(min(m, len(K2))):
+            l, k = ref.pmul(L1[a], K1[a], L2[b], K2[b])
+            want[tuple(l.tolist())] = want.get(tuple(l.tolist()), 0) + c1[a] * c2[b] * 1j ** int(k)
+    prod = Pm @ Qm
+    check(len(prod) == min(m, len(K1)) * min(m, len(K2)), 'product has %d terms' % len(prod), 'large-product')
+    compare(prod, want, 'product')
+    return {'nt': max(case['n1'], case['n2']) > 255, 'labels': ['N=%d' % N, 'n>255' if max(case['n1'], case['n2']) > 255 else 'n<=255']}
+
+
+def st_large(be):
+    return st.fixed_dictionaries({'be': st.just(be), 'N': st.sampled_from([3, 4, 5]), 'n1': st.one_of(st.integers(1, 40), st.integers(250, 420), st.integers(250, 420)), 'n2': st.integers(1, 300),
+                                  'm': st.integers(1, 20), 'seed': st.integers(0, 10 ** 6)})
+
+
+FACETS.append(Facet('np/large-polynomials', f_large, strategy=lambda t: st_large('np'), examples={'quick': 60, 'thorough': 3000}, shards={'quick': 2, 'thorough': 8}))
+FACETS.append(Facet('torch/large-polynomials', f_large, strategy=lambda t: st_large('torch'), examples={'quick': 20, 'thorough': 600}, shards={'quick': 1, 'thorough': 4}, backend='torch'))
